@@ -23,7 +23,10 @@ RULE = ("directive sequences over steps {define n v | use n} with names "
         "${b}x, padded x}: every flat sequence up to length 2 (quick) / 3 "
         "(thorough), each in every arrangement of its steps into 0..2 "
         "levels of %include files, each loaded twice against one schema "
-        "object and followed by leak probes; plus random sequences of "
+        "object - through ZConfig.loadConfig and through one long-lived "
+        "ConfigLoader object reused for every load - and followed, whether "
+        "the load succeeded or failed half-way, by leak probes; plus random "
+        "sequences of "
         "length 3..6 with random (also repeated) includes.  Non-trivial = "
         "contains a define; distinct_nontrivial = distinct (step kinds and "
         "value classes, include depth, outcome) signatures.")
@@ -38,8 +41,10 @@ ASSUMPTIONS = [
     "but the statement does not pin which error class; any configuration "
     "error is accepted there",
 ]
-FLOORS = {"quick": {"judged": 5000, "probes": 1000},
-          "thorough": {"judged": 400000, "probes": 100000}}
+FLOORS = {"quick": {"judged": 8000, "probes": 5000,
+                    "probes_after_failed_load": 1500},
+          "thorough": {"judged": 400000, "probes": 200000,
+                       "probes_after_failed_load": 50000}}
 HOOK_FLOORS = {"quick": {"parser_init": 10000, "nested_parser_init": 1000},
                "thorough": {"parser_init": 500000,
                             "nested_parser_init": 100000}}
@@ -158,11 +163,16 @@ class Hook:
         self.bad = None
 
 
-def observe(schema, path, hook):
+def observe(schema, path, hook, loader=None):
+    """Load through ZConfig.loadConfig, or through a long-lived
+    ConfigLoader object (*loader*) that is reused for every load."""
     import ZConfig
     hook.begin()
     try:
-        cfg, _ = ZConfig.loadConfig(schema, path)
+        if loader is not None:
+            cfg, _ = loader.loadURL(path)
+        else:
+            cfg, _ = ZConfig.loadConfig(schema, path)
     except ZConfig.SubstitutionReplacementError as e:
         return ("subst-missing", getattr(e, "name", None)), None
     except ZConfig.SubstitutionSyntaxError:
@@ -215,8 +225,9 @@ def signature(files, exp_out, defines):
     return "".join(kinds[:14]) + ">" + exp_out[0]
 
 
-def run_case(ctx, schema, hook, steps_files, family, dirpath):
+def run_case(ctx, schema, hook, steps_files, family, dirpath, loader=None):
     res = ctx.res
+    via = "loader-object" if loader is not None else "loadConfig"
     texts = render(steps_files)
     for name, text in texts.items():
         with open(os.path.join(dirpath, name), "w") as f:
@@ -236,22 +247,24 @@ def run_case(ctx, schema, hook, steps_files, family, dirpath):
         res.sample("%s-%s" % (family, exp_out[0]),
                    dict(case, expected=[list(exp_out), exp_vals]), 1)
     for run in (1, 2):
-        obs_out, obs_vals = observe(schema, path, hook)
+        obs_out, obs_vals = observe(schema, path, hook, loader)
         if hook.bad is not None:
             res.violate("top-parser-starts-with-definitions", case, {},
                         hook.bad, detail="run %d" % run)
         if not agrees(exp_out, exp_vals, obs_out, obs_vals):
             mech = None
             res.violate(
-                "namespace-disagrees", dict(case, run=run),
+                "namespace-disagrees", dict(case, run=run, via=via),
                 [list(exp_out), exp_vals], [list(obs_out), obs_vals],
-                detail="run %d main=%r" % (run, texts["main.conf"]),
+                detail="run %d via %s main=%r" % (run, via,
+                                                  texts["main.conf"]),
                 mechanism=mech,
-                vsig="ns|%s|%s|%s|run%d" % (exp_out[0], obs_out[0], mech,
-                                            run))
+                vsig="ns|%s|%s|%s|run%d|%s" % (exp_out[0], obs_out[0], mech,
+                                               run, via))
             break
-    # leak probes: nothing defined by this load may be visible to the next
-    if exp_out[0] == "ok" and defines:
+    # leak probes: nothing defined by this load - whether it succeeded or
+    # failed half-way - may be visible to the next
+    if exp_out[0] != "unjudged" and defines:
         for name in sorted(defines)[:2]:
             for probe, want in (("k $%s\n" % name, "missing"),
                                 ("%%define %s zz9\nk $%s\n" % (name, name),
@@ -259,17 +272,21 @@ def run_case(ctx, schema, hook, steps_files, family, dirpath):
                 with open(path, "w") as f:
                     f.write(probe)
                 res.count("probes")
-                obs_out, obs_vals = observe(schema, path, hook)
+                if exp_out[0] != "ok":
+                    res.count("probes_after_failed_load")
+                obs_out, obs_vals = observe(schema, path, hook, loader)
                 if want == "missing":
                     ok = obs_out[0] == "subst-missing"
                 else:
                     ok = obs_out == ("ok",) and obs_vals == ["zz9"]
                 if not ok:
                     res.violate("definition-leaked-into-next-load",
-                                dict(case, probe=probe), want,
+                                dict(case, probe=probe, via=via), want,
                                 [list(obs_out), obs_vals],
-                                detail="after main=%r probe=%r"
-                                % (texts["main.conf"], probe))
+                                detail="via %s after main=%r (%s) probe=%r"
+                                % (via, texts["main.conf"], exp_out[0],
+                                   probe),
+                                vsig="leak|%s|%s" % (via, exp_out[0]))
 
 
 def random_case(rng):
@@ -297,6 +314,8 @@ def run_shard(ctx):
     dirpath = os.path.join(ctx.tmp, "c05")
     os.makedirs(dirpath, exist_ok=True)
     try:
+        from ZConfig.loader import ConfigLoader
+        shared = ConfigLoader(schema)      # reused for every load
         idx = 0
         for n in range(1, BOUND[ctx.tier] + 1):
             arrs = list(arrangements(n))
@@ -304,12 +323,18 @@ def run_shard(ctx):
                 idx += 1
                 if not ctx.mine(idx):
                     continue
-                for arr in arrs:
-                    run_case(ctx, schema, hook, build_files(steps, arr),
-                             "enum", dirpath)
+                for ai, arr in enumerate(arrs):
+                    files = build_files(steps, arr)
+                    run_case(ctx, schema, hook, files, "enum", dirpath)
+                    if ai % 3 == 0:
+                        run_case(ctx, schema, hook, files, "enum-loader",
+                                 dirpath, shared)
         rng = ctx.rng("random")
         for i in range(RANDOM[ctx.tier] // ctx.nshards):
-            run_case(ctx, schema, hook, random_case(rng), "random", dirpath)
+            files = random_case(rng)
+            run_case(ctx, schema, hook, files, "random", dirpath)
+            run_case(ctx, schema, hook, files, "random-loader", dirpath,
+                     shared)
     finally:
         hook.remove()
     ctx.res.info["bounds"] = {"steps": len(STEPS),
